@@ -13,9 +13,12 @@ func (s *stateMachine[V, H, A]) ProcessStart(round types.Round) []actions.Action
 		return nil
 	}
 	s.isHeightStarted = true
+	// The entry must carry the height that is being started: processLoop below may already
+	// commit this height (messages received early), which advances s.state.height.
+	startEntry := wal.Start(s.state.height)
 	return s.processLoop(
 		[]actions.Action[V, H, A]{
-			&actions.WriteWAL[V, H, A]{Entry: (*wal.Start)(&s.state.height)},
+			&actions.WriteWAL[V, H, A]{Entry: &startEntry},
 			s.startRound(round),
 		},
 		nil,
